@@ -67,7 +67,7 @@ REQUIRED_COUNTERS = ["docs_loaded", "docs_loaded_from_file", "settings_compared"
                      "range_valid_accepted", "sweep_probe_events", "disabled_models_loaded",
                      "disabled_parameters_loaded", "sessions", "session_edits_applied", "session_edited_checked",
                      "session_bystanders_checked", "session_loaded_after_edit_checked", "session_parity_checks",
-                     "session_bystanders_with_omitted_readout_run"]
+                     "session_bystanders_with_omitted_readout_run", "session_edited_file_loaded_again_untouched"]
 TIMEOUT = {"quick": 600, "thorough": 3000}
 LEVEL_TEXT = ("Exploration by runtime monitoring: generated documents are loaded by the real pyxel.loads / pyxel.load, every "
               "written setting is read back through public properties; YAML-built and Python-built configurations are run "
@@ -1192,8 +1192,14 @@ def session_case(rec, i, rng):
     if rng.random() < 0.25:
         other = rng.choice([t for t in SESSION_EDITS if t != target])
         edits += gen_edits(rng, other, *edited_document(edited["doc"], edited["oracle"], edits))
+    if rng.random() < 0.35:
+        edited["from_file"] = True
     if rng.random() < 0.4:                                  # the edited document itself, loaded again afterwards
-        late.append(dict(edited, slot=len(entries), dup=True, from_file=rng.random() < 0.3))
+        again = dict(edited, slot=len(entries), dup=True, from_file=rng.random() < 0.3)
+        if edited["from_file"] and rng.random() < 0.75:
+            # ... from the very same, untouched file (same path, same modification time)
+            again.update(from_file=True, file_slot=edited["slot"], reuse_file=True)
+        late.append(again)
     case = {"readout_form": form, "edit_target": target, "edits": edits, "edited_slot": edited["slot"],
             "history": [f"load {e['slot']}" for e in early] + [f"edit {edited['slot']}"] + [f"load {e['slot']}" for e in late],
             "documents": {e["slot"]: e["text"] for e in early + late}}
@@ -1203,9 +1209,12 @@ def session_case(rec, i, rng):
 
     def load(ent):
         if ent["from_file"]:
-            path = os.path.join(rec.tmp, f"session_{i}_{ent['slot']}.yaml")
-            with open(path, "w") as fh:
-                fh.write(ent["text"])
+            path = os.path.join(rec.tmp, f"session_{i}_{ent.get('file_slot', ent['slot'])}.yaml")
+            if ent.get("reuse_file") and os.path.exists(path):
+                rec.count("session_edited_file_loaded_again_untouched")
+            else:
+                with open(path, "w") as fh:
+                    fh.write(ent["text"])
             return pyxel.load(path)
         return pyxel.loads(ent["text"])
 
